@@ -319,7 +319,8 @@ sys.path.insert(0, %r)
 import props.c09 as m
 spec = pickle.loads(bytes.fromhex(sys.argv[1]))
 out = m.child_run(spec)
-sys.stdout.write(pickle.dumps(out).hex())
+sys.stdout.flush()
+sys.stdout.write("\nRESULT-HEX " + pickle.dumps(out).hex() + "\n")
 '''
 
     def hist(c):
@@ -354,7 +355,11 @@ sys.stdout.write(pickle.dumps(out).hex())
                                 pickle.dumps((e, s, o)).hex()], capture_output=True, text=True, env=env, timeout=300)
             if p.returncode != 0:
                 c.check(); c.fail("history:child-process-failed", p.stderr[-800:]); continue
-            ref = pickle.loads(bytes.fromhex(p.stdout.strip()))
+            # (GLPK / DSDP write their own log lines to the C-level stdout: take the marked line only)
+            hexl = [l_ for l_ in p.stdout.splitlines() if l_.startswith("RESULT-HEX ")]
+            if not hexl:
+                c.check(); c.fail("history:child-process-failed", "no result line; stdout tail: %r" % p.stdout[-300:]); continue
+            ref = pickle.loads(bytes.fromhex(hexl[-1].split()[1]))
             ctx.count("hist.calls-vs-fresh-process")
             c.require(ref == results[i], "history:%s:differs-from-fresh-process" % e,
                       "call %d (%s, options %r) in a history differs from the same call in a fresh interpreter (%s vs %s)" %
